@@ -31,6 +31,21 @@ def main():
             for diff in sorted(glob.glob(os.path.join(VERIF, "selftest", "mutations", pid, "*.diff"))):
                 first = open(diff).readline()
                 work.append((pid, os.path.basename(diff)[:-5], diff, "PASS" if "expect: PASS" in first else "VIOLATION"))
+    sample = None
+    for a in sys.argv[1:]:
+        if a.startswith("--sample="):
+            sample = int(a.split("=")[1])
+    if sample:
+        import random
+        rnd = random.Random(int(os.environ.get("VERIF_SEED", "1")))
+        by = {}
+        for w in work:
+            by.setdefault(w[0], []).append(w)
+        work = []
+        for pid in sorted(by):
+            ws = by[pid]
+            rnd.shuffle(ws)
+            work += ws[:sample]
     for pid, name, diff, expect in work:
         if True:
             scratch = "/tmp/selftest_%s_%d" % (pid, os.getpid())
